@@ -61,7 +61,45 @@ func main() {
 				}
 			}
 		}
-		res := leaves.BurndownResult{GlobalHistory: m, PeopleMatrix: pm}
+		// the whole result: file histories under arbitrary names, ownership tables (the unmatched author is key -1
+		// in memory and in the format), developer histories, identity list, tick size, sampling, granularity
+		dict := []string{"ann|ann@x", "bob|bob@x", "çé|u@ü", "", "dee|dee@x"}[:np]
+		gen := func() [][]int64 {
+			h := make([][]int64, rows)
+			for i := range h {
+				h[i] = make([]int64, cols)
+				for j := range h[i] {
+					if rng.Intn(3) > 0 {
+						h[i][j] = int64(rng.Intn(50)) - 3
+					}
+				}
+			}
+			return h
+		}
+		ph := make([][][]int64, np)
+		for i := range ph {
+			ph[i] = gen()
+		}
+		fileNames := []string{"a.go", "dir/b.py", "ünï.txt", "with space.md", ""}
+		fh := map[string][][]int64{}
+		fo := map[string]map[int]int{}
+		for _, f := range fileNames {
+			if rng.Intn(2) == 0 {
+				fh[f] = gen()
+				own := map[int]int{}
+				for d := -1; d < np; d++ {
+					if rng.Intn(2) == 0 {
+						own[d] = rng.Intn(500)
+					}
+				}
+				fo[f] = own
+			}
+		}
+		tickNs := []int64{3600e9, 24 * 3600e9, 17 * 60e9}[rng.Intn(3)]
+		samp, gran := 1+rng.Intn(30), 1+rng.Intn(30)
+		res := leaves.VerifNewBurndownResult(m, ph, pm, dict, tickNs, samp, gran)
+		res.FileHistories = fh
+		res.FileOwnership = fo
 		var buf bytes.Buffer
 		if err := b.Serialize(res, true, &buf); err != nil {
 			panic(err)
@@ -87,6 +125,45 @@ func main() {
 				hv.Fail("burndown-roundtrip", fmt.Sprintf(`{"matrix":%q}`, fmt.Sprint(m)), fmt.Sprintf("project matrix reads back as %v", r2.GlobalHistory))
 				break
 			}
+		}
+		clamp := func(h [][]int64) [][]int64 {
+			c := make([][]int64, len(h))
+			for i := range h {
+				c[i] = make([]int64, len(h[i]))
+				for j, v := range h[i] {
+					if v > 0 {
+						c[i][j] = v
+					}
+				}
+			}
+			return c
+		}
+		full := func() string {
+			return fmt.Sprintf(`{"files":%q,"ownership":%q,"people":%q,"dict":%q,"tick_ns":%d,"sampling":%d,"granularity":%d}`,
+				fmt.Sprint(fh), fmt.Sprint(fo), fmt.Sprint(ph), dict, tickNs, samp, gran)
+		}
+		if len(r2.FileHistories) != len(fh) {
+			hv.Fail("burndown-roundtrip", full(), fmt.Sprintf("%d file histories read back, %d written", len(r2.FileHistories), len(fh)))
+		}
+		for f, h := range fh {
+			if fmt.Sprint(r2.FileHistories[f]) != fmt.Sprint(clamp(h)) {
+				hv.Fail("burndown-roundtrip", full(), fmt.Sprintf("history of file %q reads back as %v", f, r2.FileHistories[f]))
+			}
+			if fmt.Sprint(r2.FileOwnership[f]) != fmt.Sprint(fo[f]) {
+				hv.Fail("burndown-roundtrip", full(), fmt.Sprintf("ownership of file %q reads back as %v, written %v", f, r2.FileOwnership[f], fo[f]))
+			}
+		}
+		for i := range ph {
+			if i >= len(r2.PeopleHistories) || fmt.Sprint(r2.PeopleHistories[i]) != fmt.Sprint(clamp(ph[i])) {
+				hv.Fail("burndown-roundtrip", full(), fmt.Sprintf("history of developer %d reads back differently: %v", i, r2.PeopleHistories))
+				break
+			}
+		}
+		if fmt.Sprint(leaves.VerifBurndownDict(r2)) != fmt.Sprint(dict) {
+			hv.Fail("burndown-roundtrip", full(), fmt.Sprintf("identity list reads back as %q", leaves.VerifBurndownDict(r2)))
+		}
+		if t2, s2, g2 := leaves.VerifBurndownMeta(r2); t2 != tickNs || s2 != samp || g2 != gran {
+			hv.Fail("burndown-roundtrip", full(), fmt.Sprintf("tick size / sampling / granularity read back as %d/%d/%d", t2, s2, g2))
 		}
 		if fmt.Sprint(r2.PeopleMatrix) != fmt.Sprint(pm) {
 			hv.Fail("burndown-roundtrip", fmt.Sprintf(`{"people_matrix":%q}`, fmt.Sprint(pm)), fmt.Sprintf("interaction matrix reads back as %v", r2.PeopleMatrix))
